@@ -146,7 +146,14 @@ pub fn classify(msg: &[u8]) -> Classified {
 	let count = |k: &str| pairs.iter().filter(|(n, _)| n == k).count();
 	let get = |k: &str| pairs.iter().find(|(n, _)| n == k).map(|(_, v)| v);
 	if count("id") > 1 {
-		return unclassified;
+		// an object whose `id` member occurs more than once is not a request; it is not a notification either unless
+		// none of the values is an id the library can represent (that case is left open)
+		let mut ids: Vec<Value> = pairs.iter().filter(|(n, v)| n == "id" && id_in_domain(v)).map(|(_, v)| v.clone()).collect();
+		if ids.is_empty() {
+			return unclassified;
+		}
+		ids.push(Value::Null);
+		return not_request(ids);
 	}
 	// duplicated unknown members are not generated; treat as unclassified
 	let known = ["jsonrpc", "id", "method", "params"];
